@@ -13,7 +13,7 @@ Lemma bind_ok {A B} (e : result A) (f : A -> result B) b :
 Proof. destruct e; cbn; intros H; [eauto | discriminate]. Qed.
 
 (* decompose hypotheses of the form [bind e f = Ok b] *)
-Ltac inv_bind H :=
+Tactic Notation "inv_bind" hyp(H) :=
   let a := fresh "v" in let E := fresh "E" in
   apply bind_ok in H; destruct H as (a & E & H).
 
@@ -29,6 +29,9 @@ Ltac eq_subst H :=
       let H1 := fresh "Hq" in assert (H1 : a = b) by congruence; clear H; eq_subst H1
   | ?x = ?y => first [ is_var y; subst y | is_var x; subst x | idtac ]
   end.
+
+Tactic Notation "inv_bind" hyp(H) "as" ident(a) ident(E) :=
+  apply bind_ok in H; destruct H as (a & E & H).
 
 Ltac ok_inv :=
   repeat match goal with
